@@ -86,8 +86,18 @@ macro_rules! diff_int {
                             12 => (format!("{:?}", l.fetch_min(a, o)), format!("{:?}", s.fetch_min(a, o))),
                             13 => {
                                 let f = fail_for(&mut rng);
-                                let g = |v: $t| if v == a { None } else { Some(v.wrapping_add(b2)) };
-                                (format!("{:?}", l.fetch_update(o, f, g)), format!("{:?}", s.fetch_update(o, f, g)))
+                                if rng.below(2) == 0 {
+                                    let g = |v: $t| if v == a { None } else { Some(v.wrapping_add(b2)) };
+                                    (format!("{:?}", l.fetch_update(o, f, g)), format!("{:?}", s.fetch_update(o, f, g)))
+                                } else {
+                                    // FnMut with state: the arguments it is called with, how often, and a result that depends on the call
+                                    // (uncontended: exactly one call with the current value, as in std)
+                                    let (mut lc, mut sc) = (Vec::new(), Vec::new());
+                                    let (mut lt, mut st) = (Some(b2), Some(b2));
+                                    let lr = l.fetch_update(o, f, |v: $t| { lc.push(v); if v == a { None } else { lt.take().map(|t| v.wrapping_add(t)) } });
+                                    let sr = s.fetch_update(o, f, |v: $t| { sc.push(v); if v == a { None } else { st.take().map(|t| v.wrapping_add(t)) } });
+                                    (format!("{:?} closure called with {:?}", lr, lc), format!("{:?} closure called with {:?}", sr, sc))
+                                }
                             }
                             14 => {
                                 l.with_mut(|v| *v = v.wrapping_mul(3).wrapping_add(a));
@@ -195,8 +205,16 @@ fn d_bool(seed: u64, nops: usize, want_sample: bool) -> SeqOut {
                     8 => (format!("{:?}", l.fetch_xor(a, o)), format!("{:?}", s.fetch_xor(a, o))),
                     9 => {
                         let f = fail_for(&mut rng);
-                        let g = |v: bool| if v == a { None } else { Some(v ^ b2) };
-                        (format!("{:?}", l.fetch_update(o, f, g)), format!("{:?}", s.fetch_update(o, f, g)))
+                        if rng.below(2) == 0 {
+                            let g = |v: bool| if v == a { None } else { Some(v ^ b2) };
+                            (format!("{:?}", l.fetch_update(o, f, g)), format!("{:?}", s.fetch_update(o, f, g)))
+                        } else {
+                            let (mut lc, mut sc) = (Vec::new(), Vec::new());
+                            let (mut lt, mut st) = (Some(b2), Some(b2));
+                            let lr = l.fetch_update(o, f, |v: bool| { lc.push(v); if v == a { None } else { lt.take().map(|t| v ^ t) } });
+                            let sr = s.fetch_update(o, f, |v: bool| { sc.push(v); if v == a { None } else { st.take().map(|t| v ^ t) } });
+                            (format!("{:?} closure called with {:?}", lr, lc), format!("{:?} closure called with {:?}", sr, sc))
+                        }
                     }
                     10 => {
                         // AtomicBool has no with_mut in loom: move out and back in instead
@@ -286,8 +304,16 @@ fn d_ptr(seed: u64, nops: usize, want_sample: bool) -> SeqOut {
                     }
                     5 => {
                         let f = fail_for(&mut rng);
-                        let g = |v: *mut u32| if v == a { None } else { Some(b2) };
-                        (format!("{:?}", l.fetch_update(o, f, g)), format!("{:?}", s.fetch_update(o, f, g)))
+                        if rng.below(2) == 0 {
+                            let g = |v: *mut u32| if v == a { None } else { Some(b2) };
+                            (format!("{:?}", l.fetch_update(o, f, g)), format!("{:?}", s.fetch_update(o, f, g)))
+                        } else {
+                            let (mut lc, mut sc) = (Vec::new(), Vec::new());
+                            let (mut lt, mut st) = (Some(b2), Some(b2));
+                            let lr = l.fetch_update(o, f, |v: *mut u32| { lc.push(v); if v == a { None } else { lt.take() } });
+                            let sr = s.fetch_update(o, f, |v: *mut u32| { sc.push(v); if v == a { None } else { st.take() } });
+                            (format!("{:?} closure called with {:?}", lr, lc), format!("{:?} closure called with {:?}", sr, sc))
+                        }
                     }
                     6 => {
                         l.with_mut(|v| *v = a);
